@@ -120,6 +120,17 @@ def m_zeros(eng, callee, args):
     return ND(obj_array([Num(0) for _ in range(n)], sh))
 
 
+@model(r"impl_constructors::<impl ArrayBase<.*>>::from_shape_vec::<", "Array::from_shape_vec: Ok iff the vector has exactly product(shape) elements (row-major)")
+def m_from_shape_vec(eng, callee, args):
+    sh = shape_of(args[0])
+    v = deref(args[1])
+    items = v.items if isinstance(v, RVec) else v
+    n = int(np.prod(sh)) if sh else 1
+    if len(items) != n:
+        return Err(Opaque("ShapeError"))
+    return Ok(ND(obj_array(list(items), sh)))
+
+
 @model(r"impl_views::constructors::<impl ArrayBase<ViewRepr<.*>>::from_shape::<", "ArrayView::from_shape: Ok iff the slice is long enough (row-major)")
 def m_from_shape(eng, callee, args):
     sh = shape_of(args[0])
@@ -477,6 +488,23 @@ def m_axis_iter(eng, callee, args):
     for i in range(a.shape[ax]):
         idx = [slice(None)] * a.ndim
         idx[ax] = i
+        out.append(ND(a[tuple(idx)]))
+    return PyIter(out, len(out))
+
+
+@model(r"impl_methods::<impl ArrayBase<.*>>::(axis_chunks_iter|axis_chunks_iter_mut)$", "axis_chunks_iter(axis, size): consecutive blocks along the axis (views), last one shorter")
+def m_axis_chunks_iter(eng, callee, args):
+    a = nd(args[0]).a
+    ax = axis_of(args[1])
+    size = args[2]
+    if not isinstance(size, int):
+        raise Unmodelled("symbolic chunk size")
+    if size == 0:
+        raise PanicPath("ndarray: chunk size must not be zero")
+    out = []
+    for lo in range(0, a.shape[ax], size):
+        idx = [slice(None)] * a.ndim
+        idx[ax] = slice(lo, min(lo + size, a.shape[ax]))
         out.append(ND(a[tuple(idx)]))
     return PyIter(out, len(out))
 
